@@ -331,6 +331,28 @@ func checkC04(c *Ctx) {
 	}
 	flush()
 
+	// ---- Part 1b: data-driven operands (S7): every form over template parameters x every binding in the common subset ----
+	for _, f := range s7Forms() {
+		if !c.Mine() {
+			continue
+		}
+		var ds []data.Map
+		for _, d := range s7Bindings() {
+			if inCommonExpr(&Env{Vars: d, IJ: exprIJ}, f) && jsonSafe(d) {
+				ds = append(ds, d)
+			}
+		}
+		if len(ds) == 0 {
+			continue
+		}
+		src := "{namespace v}\n/**\n * @param? p\n * @param? q\n */\n{template .m}\nA{" + f.String() + "}B{if false}{$p}{$q}{/if}\n{/template}\n"
+		r := renderBoth([]string{"t.soy"}, map[string]string{"t.soy": src}, nil, []string{"v.m"}, ds, exprIJ, nil)
+		compareBoth(c, r, c04case{Files: map[string]string{"t.soy": src}, Entry: "v.m", Sketch: f.String()}, ds, "S7:"+f.String(), func(i int) (string, bool) {
+			w, st := (&Env{Vars: ds[i], IJ: exprIJ}).printed(f)
+			return "A" + w + "B", st == stOK
+		})
+	}
+
 	// ---- Part 2: commands, scoping and calls (C02 grammar), every data set ----
 	lib := libFiles()
 	datas := c02Data()
@@ -609,4 +631,10 @@ func firstKey(m map[string]string) string {
 		return ""
 	}
 	return ks[0]
+}
+
+// jsonSafe: the binding survives the JSON transport to the JS side unchanged (ASCII strings only).
+func jsonSafe(d data.Map) bool {
+	s, _ := refStr(d)
+	return isASCII(s)
 }
